@@ -8,6 +8,7 @@ from .. import paths
 from ..core import FUNC, call_attr, calls_in, dotted, norm, text, walk_local
 
 EXPLANATION = [
+    'C04.queue-geometry: each host data queue takes max_in_flight (and max_packet_size) from the Read Buffer Size fields of its own buffer pool, so the credit limit is the count the controller advertised for that pool (same rule as C05.queue-geometry).',
     'C04.over-report: on every path of on_packets_completed the amount subtracted from the global in-flight counter equals (as a linear form over entry values) the amount by which the connection\'s own counter dropped; reports for unknown handles change nothing.',
     'C04.credit-guard: in DataPacketQueue._check_queue every hand-over to the '
     'controller is dominated by `_in_flight < max_in_flight`; each loop '
@@ -486,7 +487,13 @@ def over_report(ctx):
     R.check('if connection_handle not in self._connection_state:' in s, rule, 'bumble.host.DataPacketQueue.on_packets_completed | unknown handle', 'reports for unknown handles are ignored', 'completion reports for unknown handles are no longer ignored', p.loc(fn))
 
 
+def queue_geometry(ctx):
+    from . import c05
+    c05.queue_geometry(ctx, rule='C04.queue-geometry')
+
+
 RULES = [
+    ('C04.queue-geometry', queue_geometry),
     ('C04.over-report', over_report),
     ('C04.credit-guard', credit_guard),
     ('C04.pump', pump),
